@@ -1020,8 +1020,9 @@ func (c TailCallInstr) Execute(env *Zlisp) error {
 		return err
 	}
 	f, isFun := funcobj.(*SexpFunction)
-	self := isFun && !f.user && env.curfunc != nil && !env.curfunc.user &&
-		len(f.fun) > 0 && len(f.fun) == len(env.curfunc.fun) && &f.fun[0] == &env.curfunc.fun[0]
+	// self: the name is bound to the very closure that is running, not
+	// merely to another closure made from the same definition.
+	self := isFun && !f.user && f == env.curfunc
 	if !self {
 		return CallInstr{c.sym, c.nargs}.Execute(env)
 	}
